@@ -113,7 +113,10 @@ impl InstructionGenerator {
     }
 
     fn generate_stash_by_ref_args(&mut self, args: &Expressions) {
-        for (index, Positioned { element: arg, pos }) in args.iter().enumerate() {
+        // stashed in reverse order and un-stashed from the end (see dequeue_from_return_stack),
+        // so that a call made while storing a value back (e.g. by the subscript of `A(F(I))`)
+        // can use the same stack without disturbing the values that are still pending
+        for (index, Positioned { element: arg, pos }) in args.iter().enumerate().rev() {
             if arg.is_by_ref() {
                 self.push(Instruction::EnqueueToReturnStack(index), *pos);
             }
